@@ -333,6 +333,8 @@ def enrol_extra(prop, tier, seed):
                 # the same identity fetches a second time with a replaced encryption key (wrapper flows authorise from the request)
                 if flow in ("wrapped", "rewrapped"):
                     ops.append(dict(op="Enrol", flow=flow, backend=be, sw=sw, state="none", params=False, subst="none", rekey=True))
+                    # the server's roots are replaced and the node registers again with the very same credentials
+                    ops.append(dict(op="Enrol", flow=flow, backend=be, sw=sw, state="none", params=False, subst="none", rekey=False, reroot=True))
             # node-side substitutions (one storage configuration per flow x back end in quick, all in thorough)
             for sw in ((False,) if tier == "quick" else (False, True)):
                 for subst in ("wrongKey", "tamper", "wrongServerPub", "nonce32", "nonceToken", "swapBundles"):
